@@ -146,7 +146,7 @@ Fixpoint nc_definitions (ds : list definition) : string :=
 
 (* the text before the final TrimSpace, and the result *)
 Definition nc_packet (t : pt) : string := nc_definitions (pk_defs t).
-Definition nc_pt (t : pt) : string := trim_space (nc_packet t).
+Definition nc_pt (t : pt) : string := trim_right_nl (nc_packet t).
 
 (* ------------------------------------------------------------------ erase: forget line and column *)
 Definition ek (k : ptok) : ptok := mkPtok (p_type k) (p_text k) 0 0 (p_idx k).
